@@ -3,6 +3,9 @@ PROP_MODULES = {
     "C02": ["contracts.c02_select"],
     "C03": ["contracts.c03_neurons"],
     "C07": ["contracts.c07_traces"],
+    "C08": ["contracts.c09_split"],
+    "C09": ["contracts.c09_split", "contracts.c18_dastdp"],
     "C10": ["contracts.c10_updater"],
+    "C18": ["contracts.c18_dastdp"],
     "C20": ["contracts.c20_numeric"],
 }
